@@ -148,7 +148,17 @@ def check(repo: Repo, R) -> None:
     mapped = [(c, b) for c, b in pat.find("pinst.module.external.name = $D[inst.of.prim.name]", fi.node) if shared.cond_match(fi.node, c, IDEAL, True, use_prov=False)]
     ide = any(shared.cond_match(fi.node, c, IDEAL, True, use_prov=False) for c, _b in pat.find("pinst.module.external.domain = 'vlsir.primitives'", fi.node)) and len(mapped) == 1
     # the lookup happens only for names the table has; the other case raises
-    g = ide and any(isinstance(n, ast.If) and pat.match(f"inst.of.prim.name in {ast.unparse(mapped[0][1]['D'])}", n.test) is not None and au.raises(n.orelse) and any(t is n.test and pol for t, pol in shared.path_conditions(fi.node, mapped[0][0])) for n in au.walk_no_nested(fi.node))
+    def _same_keys(test):
+        # `name in <the table>`, or `name in (<exactly the table's keys>)`
+        if not (isinstance(test, ast.Compare) and len(test.ops) == 1 and isinstance(test.ops[0], ast.In) and ast.unparse(test.left) == "inst.of.prim.name"):
+            return False
+        D = mapped[0][1]["D"]
+        c_ = test.comparators[0]
+        if ast.unparse(c_) == ast.unparse(D):
+            return True
+        Dv = shared.prov(fi.node, D)
+        return isinstance(Dv, ast.Dict) and isinstance(c_, (ast.Tuple, ast.List, ast.Set)) and [ast.unparse(k) for k in Dv.keys] == [ast.unparse(e) for e in c_.elts]
+    g = ide and any(isinstance(n, ast.If) and _same_keys(n.test) and au.raises(n.orelse) and any(t is n.test and pol for t, pol in shared.path_conditions(fi.node, mapped[0][0])) for n in au.walk_no_nested(fi.node))
     R.check(phys and ide and g, rule, key_of(fi, "primitive-refs"), fi.site, f"physical primitives refer to hdl21.primitives.<name> ({phys}); ideal ones to vlsir.primitives.<mapped name> ({ide}), unknown ones raise ({g})", why="a primitive instance refers to a module no reader knows")
     conn_loop = [n for n in au.walk_no_nested(fi.node) if isinstance(n, ast.For) and ast.unparse(n.iter) == "inst.conns.items()"]
     ok = len(conn_loop) == 1 and isinstance(conn_loop[0].target, ast.Tuple) and len(conn_loop[0].target.elts) == 2 and bool(shared.calls_matching(conn_loop[0], "pinst.connections.append(vckt.Connection(portname={}, target=export_connection_target({})))".format(*[ast.unparse(x) for x in conn_loop[0].target.elts])))
